@@ -117,6 +117,9 @@ def check_c19(run: Run, prog: Program) -> None:
     dunder.rule_V4(run, prog)
     dunder.rule_V1b(run, prog)
     run.floor("E2.S4", dunder.rule_S4(run, prog), 2)
+    from geolint import indexing
+
+    run.stats["index_tuples"] = indexing.rule_E13(run, prog, max_len=4 if run.tier == "thorough" else 3)
     run.floor("super() call sites", n1, 30)
     run.floor("operator presence obligations", n3, 50)
     if not any(o.rule == "E3.T" and o.verdict == UNDECIDED for o in run.obligations):
